@@ -2,6 +2,8 @@ package main
 
 func init() { register("C18", propC18) }
 
+const roundUpClause = "round-up idioms (E24): every expression that rounds up to a multiple - (x + c) / d, (x + c) >> n, (x + c) &^ m, (x + c) & ^m with constants, or (x + a - 1) &^ (a - 1), (x + a - 1) / a with a variable - is well-formed (c, d, n, m describe the same power of two / divisor, the same variable appears in both places), and no size is computed as floor-plus-one ((x >> n) + 1, x/k + 1), which is one unit too large exactly at the multiples"
+
 func propC18(c *Ctx, r *Report) {
 	r.Clauses = append(r.Clauses,
 		"bitstream block nesting (E7, go/cfg): in every DXIL serialiser function EnterBlock/ExitBlock are balanced on every path (helper functions with a consistent non-zero net effect are counted at their call sites), so block length back-patching always closes the block it opened")
@@ -14,6 +16,9 @@ func propC18(c *Ctx, r *Report) {
 	r.floor("siblings.dxil/internal/emit", 1)
 	r.Clauses = append(r.Clauses, enumMapClause+" - here: the semantic names and kinds of the signature / PSV parts, the program kind of the header and the component types of signature elements")
 	c.runEnumTables(r, "dxil")
+	r.Clauses = append(r.Clauses, roundUpClause+" - here: part sizes, string-table alignment and the dword counts of the PSV dependency tables")
+	c.runRoundUp(r, "arith.roundup", inPkgs("dxil"), "arith.roundup")
+	r.floor("arith.roundup", 8)
 	r.Clauses = append(r.Clauses, "determinism (E6): every `range` over a Go map in the DXIL packages is order-insensitive or argued")
 	c.runMapOrder(r, "maporder", "dxil.mapranges", inPkgs("dxil"), mapOrderExceptions)
 	r.floor("dxil.mapranges", 20)
